@@ -65,6 +65,7 @@ func (g *Gen) call(b *ssa.BasicBlock, ins ssa.Instruction, c *ssa.CallCommon, h 
 			g.Assumed[fmt.Sprintf("interface call %s.%s: no contract (arbitrary results, no effect on modelled state)", typeName(c.Value.Type()), c.Method.Name())] = true
 			return resultVal(g, res, "invoke:"+c.Method.Name()), h
 		}
+		g.Assumed["assumed contract of the interface method "+strings.TrimPrefix(fc.Key, "interface:")+" (arbitrary implementation behind it)"] = true
 		names := append([]string{"recv"}, fc.Params...)
 		return g.applyContract(b, fc, names, append([]Val{recv}, args...), res, nil, h, guard, pos, c.Method.Name(), nil)
 	}
@@ -143,6 +144,7 @@ func (g *Gen) call(b *ssa.BasicBlock, ins ssa.Instruction, c *ssa.CallCommon, h 
 		return g.freshError(h, g.wrappedOperand(c, args, h))
 	}
 	if fc, ok := g.P.Contract.Funcs[key]; ok {
+		g.Assumed["assumed contract of the external function "+strings.TrimPrefix(key, "extern:")+" (contracts/external.contracts)"] = true
 		pn := fc.Params
 		if fn.Signature.Recv() != nil {
 			pn = append([]string{"recv"}, pn...)
